@@ -20,7 +20,10 @@
       msg = has_wantlist <entries: <cid bytes> priority cancel wantType sendDontHave>
             <payload: as in kind 1> <presences: <cid bytes> type>):
         1 p                      a new inbound substream from peer p (replaces the old one)
-        2 p split msg            a complete frame (written in two pieces when split > 0)
+        2 p split msg            a complete frame (written in two pieces when split mod 1000 > 0;
+                                 split / 1000 = fields the loop must ignore: bit 0 a legacy `blocks`
+                                 entry, 1 pendingBytes, 2 `full`, 3 unknown fields, 4 the wantlist
+                                 as two `wantlist` fields, which protobuf merges)
         3 p kind cut msg         the substream ends badly: 0 frame that is not protobuf, 1 frame
                                  cut after `cut` bytes then closed, 2 length prefix above the
                                  limit, 3 clean close, 4 reset, 5 malformed length prefix
@@ -30,13 +33,34 @@
                                  1 opens, takes `budget` bytes and stalls (write timeout),
                                  2 opens, takes `budget` bytes and fails, 3 fails to open
         7 p mode budget          the same change on the established outbound substream
+        8 p / 9 p / 10 p / 11 p  connection closed / established / its command channel dies /
+                                 DialFailure for the peer
+        12 p tag                 what the transport manager will answer to dial(p): 0 no address,
+                                 1 accepted, 2 already connected, 3 dial in progress
+        13 p kind n cidspec x    a bulk command of n entries (n <= 80000) in runs of 1, 2, 3, ...
+                                 equal entries, run j being built on the cidspec with the first two
+                                 digest bytes replaced by j: kind 0 send_request (x = wantType),
+                                 1 send_response of presences (x = type), 2 send_response of
+                                 blocks of x bytes (block id = j)
       trace:  4 nops { <events> <complete messages written> partial_bytes }*nops
+              the entries of a written message are run-length encoded: count entry
    5  presence batching through the hooked functions:  5 max_message n { cidspec presence }*n
-      trace:  5 k { <ids> message_len <decoded: <cid bytes> type> }*k *)
+      trace:  5 k { <ids> message_len <decoded: <cid bytes> type> <the message's bytes> }*k
+   6  the real send_request on a substream whose codec has the given message size limit:
+                  6 max_message n { cidspec wantType }*n
+      trace:  6 1 message_len <decoded entries: <cid bytes> priority cancel wantType
+                  sendDontHave> full <the message's bytes>     (Ok: one frame was written)
+              6 0 bytes_written                                 (Err: refused by the codec)
+   7  blocks_message on blocks given with their data:  7 n { cidspec <data bytes> }*n
+      trace:  7 <the message's bytes> (7 0 when there is no message: n = 0)
+   8  end to end (the two nodes of kind 3): a send_request, then a send_response of presences
+      and blocks:   8 <wants: cidspec wantType> <presences: cidspec type> <blocks: as in kind 3>
+      trace:  8 k { 1 <want ids> | 2 <presence ids> | 3 <block ids> }*k — the BitswapEvents of
+              the remote user, one per message that carries something *)
 From Coq Require Import List NArith Bool.
 From V.common Require Import Wire.
 From V.gen Require Consts.
-From V.C20 Require Import Model.
+From V.C20 Require Import Model Bytes.
 Import ListNotations.
 Open Scope N_scope.
 
@@ -124,7 +148,12 @@ Inductive nop :=
 | NSend (p : N) (a : action)
 | NOutOpen (p : N) (c : carrier)
 | NOutFail (p : N)
-| NOutSet (p : N) (c : carrier).
+| NOutSet (p : N) (c : carrier)
+| NConnClose (p : N)
+| NConnect (p : N)
+| NKill (p : N)
+| NDialFail (p : N)
+| NForce (p : N) (tag : N).
 
 Definition p_peer : parser N := let* p := pN in if p <? NPEERS then pret p else pfail.
 
@@ -156,6 +185,46 @@ Definition p_carrier : parser (option carrier) :=    (* None = the substream fai
   | _ => pfail
   end.
 
+(* ---- bulk commands: many entries from a few numbers ---- *)
+
+Definition BULK_MAX : N := 80000.
+
+(* runs of lengths 1, 2, 3, ... (the last one cut) that add up to n: (run index, length) *)
+Fixpoint bulk_runs (fuel : nat) (j left : N) : list (N * N) :=
+  match fuel with
+  | O => []
+  | S f =>
+      if left =? 0 then []
+      else let len := N.min (j + 1) left in (j, len) :: bulk_runs f (j + 1) (left - len)
+  end.
+
+Definition bulk_cid (c : cid) (j : N) : cid :=
+  mkCid (c_version c) (c_codec c) (c_code c)
+        (match c_digest c with _ :: _ :: t => (j / 256) mod 256 :: j mod 256 :: t | d => d end).
+
+Definition bulk_expand {X} (n : N) (mk : N -> X) : list X :=
+  flat_map (fun jl : N * N => repeat (mk (fst jl)) (N.to_nat (snd jl))) (bulk_runs 2000 0 n).
+
+Definition p_bulk : parser action :=
+  let* kind := pN in let* n := pN in let* c := p_cidspec in let* x := pN in
+  if (n <=? BULK_MAX) && (2 <=? N.of_nat (length (c_digest c))) then
+    match kind with
+    | 0 => match x with
+           | 0 => pret (ARequest (bulk_expand n (fun j => (bulk_cid c j, WBlock))))
+           | 1 => pret (ARequest (bulk_expand n (fun j => (bulk_cid c j, WHave))))
+           | _ => pfail
+           end
+    | 1 => match x with
+           | 0 => pret (AResponse (bulk_expand n (fun j => mkSP j (bulk_cid c j) PHave)) [])
+           | 1 => pret (AResponse (bulk_expand n (fun j => mkSP j (bulk_cid c j) PDontHave)) [])
+           | _ => pfail
+           end
+    | 2 => if (4 <=? x) && (x <=? 8388608)
+           then pret (AResponse [] (bulk_expand n (fun j => mkSB j (bulk_cid c j) x))) else pfail
+    | _ => pfail
+    end
+  else pfail.
+
 Definition p_nop : parser (nop * list oentry) :=
   let* tag := pN in
   match tag with
@@ -169,6 +238,12 @@ Definition p_nop : parser (nop * list oentry) :=
          pret (match c with Some c => NOutOpen p c | None => NOutFail p end, [])
   | 7 => let* p := p_peer in let* c := p_carrier in
          match c with Some c => pret (NOutSet p c, []) | None => pfail end
+  | 8 => let* p := p_peer in pret (NConnClose p, [])
+  | 9 => let* p := p_peer in pret (NConnect p, [])
+  | 10 => let* p := p_peer in pret (NKill p, [])
+  | 11 => let* p := p_peer in pret (NDialFail p, [])
+  | 12 => let* p := p_peer in let* tag := pN in if tag <=? 3 then pret (NForce p tag, []) else pfail
+  | 13 => let* p := p_peer in let* a := p_bulk in pret (NSend p a, [])
   | _ => pfail
   end.
 
@@ -184,7 +259,10 @@ Inductive case :=
 | CSend (mb mm : N) (l : list sblock)
 | CE2E (l : list sblock)
 | CNode (ops : list nop) (tab : list oentry)
-| CPres (mm : N) (l : list spres).
+| CPres (mm : N) (l : list spres)
+| CWant (mm : N) (l : list (N * (cid * want_type)))
+| CBlocksMsg (l : list cblock)
+| CMixed (ws : list (N * (cid * want_type))) (ps : list spres) (bs : list sblock).
 
 Definition decode_case (l : list N) : option case :=
   pall (let* kind := pN in
@@ -195,6 +273,10 @@ Definition decode_case (l : list N) : option case :=
         | 3 => let* bs := plist p_sblock in pret (CE2E (map mk_sblock (number 0 bs)))
         | 4 => let* ops := plist p_nop in pret (CNode (map fst ops) (flat_map snd ops))
         | 5 => let* mm := pN in let* ps := plist p_spres in pret (CPres mm (map mk_spres (number 0 ps)))
+        | 6 => let* mm := pN in let* ws := plist p_want in pret (CWant mm (number 0 ws))
+        | 7 => let* bs := plist (let* c := p_cidspec in let* d := p_bytes in pret (c, d)) in pret (CBlocksMsg bs)
+        | 8 => let* ws := plist p_want in let* ps := plist p_spres in let* bs := plist p_sblock in
+               pret (CMixed (number 0 ws) (map mk_spres (number 0 ps)) (map mk_sblock (number 0 bs)))
         | _ => pfail
         end) l.
 
@@ -215,11 +297,11 @@ Definition run_recv (bs : list rblock) : list N :=
 
 Definition enc_batch (b : list sblock) : list N :=
   enc_list (fun x => [sb_id x]) b ++
-  [match b with [] => 0 | _ => message_len sblock sb_elen b end] ++
+  [match b with [] => 0 | _ => message_len sblock sb_elen blk_mlen b end] ++
   enc_list (fun x => enc_list (fun y => [y]) (sb_prefix x) ++ [sb_dlen x; 1]) b.
 
 Definition run_send (mb mm : N) (l : list sblock) : list N :=
-  enc_list enc_batch (all_batches sblock sb_dlen sb_elen mb mm l).
+  enc_list enc_batch (all_batches sblock sb_dlen sb_elen blk_mlen mb mm l).
 
 (* end to end: every message that send_response writes becomes one Response event at the
    receiver (whose block_to_response accepts the honest blocks) *)
@@ -247,74 +329,97 @@ Definition enc_event (p : N) (e : event payload) : list N :=
   | EResponse rs => 2 :: p :: enc_list enc_response rs
   end.
 
-(* a written message as the harness decodes it again: kind, encoded length, entries *)
+(* run-length encoding of equal neighbours (tail recursive: bulk commands give long lists) *)
+Fixpoint rle_go {X} (eqb : X -> X -> bool) (cur : X) (k : N) (l : list X) (acc : list (N * X)) : list (N * X) :=
+  match l with
+  | [] => rev_append acc [(k, cur)]
+  | e :: t => if eqb e cur then rle_go eqb cur (k + 1) t acc else rle_go eqb e 1 t ((k, cur) :: acc)
+  end.
+
+Definition rle {X} (eqb : X -> X -> bool) (l : list X) : list (N * X) :=
+  match l with [] => [] | e :: t => rle_go eqb e 1 t [] end.
+
+Definition enc_runs {X} (eqb : X -> X -> bool) (f : X -> list N) (l : list X) : list N :=
+  enc_list (fun r : N * X => fst r :: f (snd r)) (rle eqb l).
+
+Definition want_eqb (a b : cid * want_type) : bool :=
+  cid_eqb (fst a) (fst b) && (want_code (snd a) =? want_code (snd b)).
+Definition spres_eqb (a b : spres) : bool :=
+  cid_eqb (sp_cid a) (sp_cid b) && (presence_code (sp_type a) =? presence_code (sp_type b)).
+Definition sblock_eqb (a b : sblock) : bool :=
+  (sb_id a =? sb_id b) && cid_eqb (sb_cid a) (sb_cid b) && (sb_dlen a =? sb_dlen b).
+
+(* a written message as the harness decodes it again: kind, encoded length, entries (runs) *)
 Definition enc_omsg (m : omsg) : list N :=
   match m with
   | ORequest ws =>
       1 :: omsg_len m ::
-      enc_list (fun cw => enc_bytes (cid_to_bytes (fst cw)) ++ [1; 0; want_code (snd cw); 0]) ws ++ [0]
+      enc_runs want_eqb (fun cw => enc_bytes (cid_to_bytes (fst cw)) ++ [1; 0; want_code (snd cw); 0]) ws ++ [0]
   | OPresences l =>
       2 :: omsg_len m ::
-      enc_list (fun x => enc_bytes (cid_to_bytes (sp_cid x)) ++ [presence_code (sp_type x)]) l
+      enc_runs spres_eqb (fun x => enc_bytes (cid_to_bytes (sp_cid x)) ++ [presence_code (sp_type x)]) l
   | OBlocks l =>
       3 :: omsg_len m ::
-      enc_list (fun x => [sb_id x] ++ enc_bytes (sb_prefix x) ++ [sb_dlen x; 1]) l
+      enc_runs sblock_eqb (fun x => [sb_id x] ++ enc_bytes (sb_prefix x) ++ [sb_dlen x; 1]) l
   end.
 
-Definition get_ps (st : list pstate) (p : N) : pstate := nth (N.to_nat p) st ps_init.
-Fixpoint set_ps (st : list pstate) (p : nat) (s : pstate) : list pstate :=
-  match st, p with
-  | [], _ => []
-  | _ :: t, O => s :: t
-  | h :: t, S q => h :: set_ps t q s
-  end.
-
-Definition node_step (tab : list oentry) (st : list pstate) (o : nop)
-  : list pstate * (list N (* events, encoded *) * written) :=
+(* a case operation is an event of one peer of the model's node *)
+Definition nop_pev (o : nop) : N * pev payload :=
   match o with
-  | NInOpen p =>
-      let s := get_ps st p in
-      (set_ps st (N.to_nat p) (mkPS true (ps_out s) (ps_pend s) (ps_opening s)), ([0], ([], 0)))
-  | NInFrame p m =>
-      let s := get_ps st p in
-      if ps_inb s
-      then (st, (enc_list (enc_event p) (msg_events payload (digest_of tab) m), ([], 0)))
-      else (st, ([0], ([], 0)))
-  | NInBad p =>
-      let s := get_ps st p in
-      (set_ps st (N.to_nat p) (mkPS false (ps_out s) (ps_pend s) (ps_opening s)), ([0], ([], 0)))
-  | NSend p a =>
-      let '(s', w) := send_action MB MM (get_ps st p) a in
-      (set_ps st (N.to_nat p) s', ([0], w))
-  | NOutOpen p c =>
-      let '(s', w) := outbound_opened MB MM (get_ps st p) c in
-      (set_ps st (N.to_nat p) s', ([0], w))
-  | NOutFail p =>
-      (set_ps st (N.to_nat p) (outbound_failed (get_ps st p)), ([0], ([], 0)))
-  | NOutSet p c =>
-      let s := get_ps st p in
-      (set_ps st (N.to_nat p)
-         (mkPS (ps_inb s) (match ps_out s with Some _ => Some c | None => None end) (ps_pend s) (ps_opening s)),
-       ([0], ([], 0)))
+  | NInOpen p => (p, PInOpen)
+  | NInFrame p m => (p, PInFrame m)
+  | NInBad p => (p, PInBad)
+  | NSend p a => (p, PSend a)
+  | NOutOpen p c => (p, POutOpen c)
+  | NOutFail p => (p, POutFail)
+  | NOutSet p c => (p, POutSet c)
+  | NConnClose p => (p, PConnClose)
+  | NConnect p => (p, PConnect)
+  | NKill p => (p, PKill)
+  | NDialFail p => (p, PDialFail)
+  | NForce p tag => (p, PForce tag)
   end.
 
 Fixpoint run_node (tab : list oentry) (st : list pstate) (ops : list nop) : list N :=
   match ops with
   | [] => []
   | o :: t =>
-      let '(st', (evs, (done, part))) := node_step tab st o in
-      evs ++ enc_list enc_omsg done ++ [part] ++ run_node tab st' t
+      let '(st', (evs, (done, part))) := node_step payload (digest_of tab) MB MM st (nop_pev o) in
+      enc_list (enc_event (fst (nop_pev o))) evs ++ enc_list enc_omsg done ++ [part] ++ run_node tab st' t
   end.
 
 (* ---- kind 5: presence batching ---- *)
 
 Definition enc_pbatch (b : list spres) : list N :=
   enc_list (fun x => [sp_id x]) b ++
-  [match b with [] => 0 | _ => message_len spres sp_elen b end] ++
-  enc_list (fun x => enc_bytes (cid_to_bytes (sp_cid x)) ++ [presence_code (sp_type x)]) b.
+  [match b with [] => 0 | _ => message_len spres sp_elen blk_mlen b end] ++
+  enc_list (fun x => enc_bytes (cid_to_bytes (sp_cid x)) ++ [presence_code (sp_type x)]) b ++
+  enc_bytes (match b with [] => [] | _ => presences_bytes b end).
 
 Definition run_pres (mm : N) (l : list spres) : list N :=
-  enc_list enc_pbatch (all_batches spres (fun _ => 0) sp_elen 0 mm l).
+  enc_list enc_pbatch (all_batches spres (fun _ => 0) sp_elen blk_mlen 0 mm l).
+
+(* ---- kind 6: send_request — one message, refused when longer than the limit ---- *)
+
+Definition enc_want_entry (x : N * (cid * want_type)) : list N :=
+  enc_bytes (cid_to_bytes (fst (snd x))) ++ [1; 0; want_code (snd (snd x)); 0].
+
+Definition run_wants (mm : N) (l : list (N * (cid * want_type))) : list N :=
+  let cids := map snd l in
+  if mm <? request_len cids then [0; 0]
+  else [1; request_len cids] ++ enc_list enc_want_entry l ++ [0] ++ enc_bytes (request_bytes cids).
+
+(* ---- kind 8: what the remote user is told, message by message ---- *)
+
+Definition run_mixed (ws : list (N * (cid * want_type))) (ps : list spres) (bs : list sblock) : list N :=
+  let evs :=
+    (* the request is one message; an empty wantlist is not reported (a request above the limit
+       would not be sent at all: not generated in this stream, marked 99) *)
+    (if MM <? request_len (map snd ws) then [[99]]
+     else match ws with [] => [] | _ => [1 :: enc_list (fun x : N * (cid * want_type) => [fst x]) ws] end) ++
+    map (fun b => 2 :: enc_list (fun x => [sp_id x]) b) (send_response_presences MM ps) ++
+    map (fun b => 3 :: enc_list (fun x => [sb_id x]) b) (send_response_blocks MB MM bs) in
+  N.of_nat (length evs) :: concat evs.
 
 Definition run_case (l : list N) : list N :=
   match decode_case l with
@@ -324,6 +429,9 @@ Definition run_case (l : list N) : list N :=
   | Some (CNode ops tab) =>
       4 :: N.of_nat (length ops) :: run_node tab [ps_init; ps_init; ps_init] ops
   | Some (CPres mm l) => 5 :: run_pres mm l
+  | Some (CWant mm l) => 6 :: run_wants mm l
+  | Some (CBlocksMsg l) => 7 :: enc_bytes (match l with [] => [] | _ => blocks_bytes l end)
+  | Some (CMixed ws ps bs) => 8 :: run_mixed ws ps bs
   | None => [0]
   end.
 
@@ -424,7 +532,7 @@ Definition batch_ok (mb mm : N) (l : list sblock) (b : obatch) : bool :=
   entries_ok l (ob_ids b) (ob_entries b).
 
 Definition fit_ids (mb mm : N) (l : list sblock) : list N :=
-  map sb_id (filter (fits sblock sb_dlen sb_elen mb mm) l).
+  map sb_id (filter (fits sblock sb_dlen sb_elen blk_mlen mb mm) l).
 
 (* ---- kinds 4 and 5: decoding traces and judging them ---- *)
 
@@ -452,20 +560,24 @@ Definition p_event : parser (N * event payload) :=
   | _ => pfail
   end.
 
+(* entries come as runs: (count, entry) *)
 Inductive wmsg :=
-| WRequest (len : N) (es : list wl_entry) (full : N)
-| WPresences (len : N) (ps : list (list N * N))
-| WBlocks (len : N) (bs : list (N * list N * N * N)).
+| WRequest (len : N) (es : list (N * wl_entry)) (full : N)
+| WPresences (len : N) (ps : list (N * (list N * N)))
+| WBlocks (len : N) (bs : list (N * (N * list N * N * N))).
+
+Definition p_run {X} (p : parser X) : parser (N * X) :=
+  let* k := pN in let* x := p in if 1 <=? k then pret (k, x) else pfail.
 
 Definition p_wmsg : parser wmsg :=
   let* tag := pN in
   match tag with
-  | 1 => let* len := pN in let* es := plist p_wl_entry in let* full := pN in pret (WRequest len es full)
-  | 2 => let* len := pN in let* ps := plist (let* b := plist pN in let* t := pN in pret (b, t)) in
+  | 1 => let* len := pN in let* es := plist (p_run p_wl_entry) in let* full := pN in pret (WRequest len es full)
+  | 2 => let* len := pN in let* ps := plist (p_run (let* b := plist pN in let* t := pN in pret (b, t))) in
          pret (WPresences len ps)
   | 3 => let* len := pN in
-         let* bs := plist (let* i := pN in let* pb := plist pN in let* dl := pN in let* ok := pN in
-                           pret (i, pb, dl, ok)) in
+         let* bs := plist (p_run (let* i := pN in let* pb := plist pN in let* dl := pN in let* ok := pN in
+                                  pret (i, pb, dl, ok))) in
          pret (WBlocks len bs)
   | _ => pfail
   end.
@@ -514,17 +626,21 @@ Definition wmsg_ok (w : wmsg) : bool :=
   match w with
   | WRequest len es full =>
       (1 <=? len) && (len <=? MM) && (full =? 0) &&
-      forallb (fun e => match cid_read_bytes (we_block e) with Some _ => true | None => false end &&
-                        (we_priority e =? 1) && negb (we_cancel e) && (we_wanttype e <=? 1) &&
-                        negb (we_senddonthave e)) es
+      forallb (fun ke : N * wl_entry =>
+                 let e := snd ke in
+                 match cid_read_bytes (we_block e) with Some _ => true | None => false end &&
+                 (we_priority e =? 1) && negb (we_cancel e) && (we_wanttype e <=? 1) &&
+                 negb (we_senddonthave e)) es
   | WPresences len ps =>
       (1 <=? len) && (len <=? MM) && negb (match ps with [] => true | _ => false end) &&
-      forallb (fun bt : list N * N =>
+      forallb (fun kbt : N * (list N * N) =>
+                 let bt := snd kbt in
                  match cid_read_bytes (fst bt) with Some _ => true | None => false end && (snd bt <=? 1)) ps
   | WBlocks len bs =>
       (1 <=? len) && (len <=? MM) && negb (match bs with [] => true | _ => false end) &&
-      (sum (map (fun b : N * list N * N * N => snd (fst b)) bs) <=? MB) &&
-      forallb (fun b : N * list N * N * N =>
+      (sum (map (fun kb : N * (N * list N * N * N) => fst kb * snd (fst (snd kb))) bs) <=? MB) &&
+      forallb (fun kb : N * (N * list N * N * N) =>
+                 let b := snd kb in
                  match prefix_from_bytes (snd (fst (fst b))) with Some _ => true | None => false end &&
                  (snd b =? 1)) bs
   end.
@@ -536,45 +652,109 @@ Fixpoint set_nth_b (l : list bool) (p : nat) (b : bool) : list bool :=
   | h :: t, S q => h :: set_nth_b t q b
   end.
 
-(* Judging a node trace op by op; `inb` is which peers have an inbound substream, known from
-   the ops alone.  Events may only come from complete decodable frames on an open substream and
-   must be the ones the frame denotes, with every block certified; everything written must be
-   a well-formed message within the limits. *)
-Fixpoint node_ok (tab : list oentry) (inb : list bool) (ops : list nop)
+(* what a list of messages carries, as runs of encoded entries (kind-tagged), adjacent equal
+   runs merged across message boundaries: the split into messages is forgotten *)
+Fixpoint merge_runs (l : list (N * list N)) : list (N * list N) :=
+  match l with
+  | [] => []
+  | (k, e) :: t =>
+      match merge_runs t with
+      | (k', e') :: r => if nlist_eqb e e' then (k + k', e') :: r else (k, e) :: (k', e') :: r
+      | [] => [(k, e)]
+      end
+  end.
+
+Definition omsg_runs (m : omsg) : list (N * list N) :=
+  match m with
+  | ORequest ws =>
+      map (fun r : N * (cid * want_type) =>
+             (fst r, 1 :: enc_bytes (cid_to_bytes (fst (snd r))) ++ [1; 0; want_code (snd (snd r)); 0]))
+          (rle want_eqb ws)
+  | OPresences l =>
+      map (fun r : N * spres =>
+             (fst r, 2 :: enc_bytes (cid_to_bytes (sp_cid (snd r))) ++ [presence_code (sp_type (snd r))]))
+          (rle spres_eqb l)
+  | OBlocks l =>
+      map (fun r : N * sblock =>
+             (fst r, 3 :: sb_id (snd r) :: enc_bytes (sb_prefix (snd r)) ++ [sb_dlen (snd r); 1]))
+          (rle sblock_eqb l)
+  end.
+
+Definition wmsg_runs (w : wmsg) : list (N * list N) :=
+  match w with
+  | WRequest _ es _ =>
+      map (fun ke : N * wl_entry =>
+             let e := snd ke in
+             (fst ke, 1 :: enc_bytes (we_block e) ++
+                      [we_priority e; b2n (we_cancel e); we_wanttype e; b2n (we_senddonthave e)])) es
+  | WPresences _ ps =>
+      map (fun kbt : N * (list N * N) => (fst kbt, 2 :: enc_bytes (fst (snd kbt)) ++ [snd (snd kbt)])) ps
+  | WBlocks _ bs =>
+      map (fun kb : N * (N * list N * N * N) =>
+             let b := snd kb in
+             (fst kb, 3 :: fst (fst (fst b)) :: enc_bytes (snd (fst (fst b))) ++ [snd (fst b); snd b])) bs
+  end.
+
+Definition run_eqb (a b : N * list N) : bool := (fst a =? fst b) && nlist_eqb (snd a) (snd b).
+
+(* lossless, in order, exactly once: what was written carries exactly what the loop had to
+   write at this point (the model's state says what that is), however it is cut into messages *)
+Definition content_ok (done : list omsg) (ws : list wmsg) : bool :=
+  list_eqb run_eqb (merge_runs (flat_map wmsg_runs ws)) (merge_runs (flat_map omsg_runs done)).
+
+(* Judging a node trace op by op; `con`/`inb` is which peers have a connection / an inbound
+   substream, known from the ops alone; `st` is the model's state of the loop, used for one
+   question only: which entries had to be written by this operation.  Events may only come from
+   complete decodable frames on an open substream and must be the ones the frame denotes, with
+   every block certified; everything written must be a well-formed message within the limits,
+   and the messages together must carry exactly the entries due, once and in order. *)
+Fixpoint node_ok (tab : list oentry) (st : list pstate) (con inb : list bool) (ops : list nop)
          (outs : list (list (N * event payload) * list wmsg * N)) : bool :=
   match ops, outs with
   | [], [] => true
   | o :: ops', (evs, ws, part) :: outs' =>
-      forallb wmsg_ok ws &&
+      let '(st', (_, (done, _))) := node_step payload (digest_of tab) MB MM st (nop_pev o) in
+      forallb wmsg_ok ws && content_ok done ws &&
       match o with
       | NInOpen p =>
           match evs, ws with [], [] => (part =? 0) | _, _ => false end &&
-          node_ok tab (set_nth_b inb (N.to_nat p) true) ops' outs'
+          node_ok tab st' con (if nth (N.to_nat p) con false then set_nth_b inb (N.to_nat p) true else inb) ops' outs'
       | NInBad p =>
           (* no partial delivery *)
           match evs, ws with [], [] => (part =? 0) | _, _ => false end &&
-          node_ok tab (set_nth_b inb (N.to_nat p) false) ops' outs'
+          node_ok tab st' con (set_nth_b inb (N.to_nat p) false) ops' outs'
       | NInFrame p m =>
           match ws with [] => (part =? 0) | _ => false end &&
           (if nth (N.to_nat p) inb false
            then forallb (fun pe : N * event payload => (fst pe =? p) && event_certified tab m (snd pe)) evs &&
                 list_eqb event_eqb (map snd evs) (msg_events payload (digest_of tab) m)
            else match evs with [] => true | _ => false end) &&
-          node_ok tab inb ops' outs'
+          node_ok tab st' con inb ops' outs'
       | NSend _ _ | NOutOpen _ _ =>
-          match evs with [] => true | _ => false end && node_ok tab inb ops' outs'
-      | NOutFail _ | NOutSet _ _ =>
-          match evs, ws with [], [] => (part =? 0) | _, _ => false end && node_ok tab inb ops' outs'
+          match evs with [] => true | _ => false end && node_ok tab st' con inb ops' outs'
+      | NConnClose p =>
+          match evs, ws with [], [] => (part =? 0) | _, _ => false end &&
+          node_ok tab st' (set_nth_b con (N.to_nat p) false) (set_nth_b inb (N.to_nat p) false) ops' outs'
+      | NOutFail _ | NOutSet _ _ | NKill _ | NDialFail _ | NForce _ _ =>
+          match evs, ws with [], [] => (part =? 0) | _, _ => false end && node_ok tab st' con inb ops' outs'
+      | NConnect p =>
+          (* a connection only turns a parked dial into a substream request *)
+          match evs, ws with [], [] => (part =? 0) | _, _ => false end &&
+          node_ok tab st' (set_nth_b con (N.to_nat p) true) inb ops' outs'
       end
   | _, _ => false
   end.
 
-Record opbatch := mkOPB { opb_ids : list N; opb_len : N; opb_entries : list (list N * N) }.
+Record opbatch := mkOPB { opb_ids : list N; opb_len : N; opb_entries : list (list N * N); opb_raw : list N }.
 
 Definition p_opbatch : parser opbatch :=
   let* ids := plist pN in let* len := pN in
   let* es := plist (let* b := plist pN in let* t := pN in pret (b, t)) in
-  pret (mkOPB ids len es).
+  let* raw := plist pN in
+  pret (mkOPB ids len es raw).
+
+Definition pick {X} (l : list X) (ids : list N) : list X :=
+  flat_map (fun i => match nth_error l (N.to_nat i) with Some x => [x] | None => [] end) ids.
 
 Definition find_sp (l : list spres) (i : N) : option spres := nth_error l (N.to_nat i).
 
@@ -592,7 +772,42 @@ Fixpoint pentries_ok (l : list spres) (ids : list N) (es : list (list N * N)) : 
 
 Definition pbatch_ok (mm : N) (l : list spres) (b : opbatch) : bool :=
   negb (match opb_ids b with [] => true | _ => false end) &&
-  (1 <=? opb_len b) && (opb_len b <=? mm) && pentries_ok l (opb_ids b) (opb_entries b).
+  (1 <=? opb_len b) && (opb_len b <=? mm) && pentries_ok l (opb_ids b) (opb_entries b) &&
+  (* the bytes on the wire: as long as announced, and the canonical encoding of the batch *)
+  (N.of_nat (length (opb_raw b)) =? opb_len b) &&
+  nlist_eqb (opb_raw b) (presences_bytes (pick l (opb_ids b))).
+
+Fixpoint wentries_ok (l : list (N * (cid * want_type))) (ids : list N) (es : list wl_entry) : bool :=
+  match ids, es with
+  | [], [] => true
+  | i :: ids', e :: es' =>
+      match nth_error l (N.to_nat i) with
+      | None => false
+      | Some x =>
+          opt_eqb cid_eqb (cid_read_bytes (we_block e)) (Some (fst (snd x))) &&
+          (we_wanttype e =? want_code (snd (snd x))) && (we_priority e =? 1) &&
+          negb (we_cancel e) && negb (we_senddonthave e)
+      end && wentries_ok l ids' es'
+  | _, _ => false
+  end.
+
+(* send_request: Ok means one message went out — within the limit, not marked `full`, decoding to
+   exactly the wants, in order, and being the canonical encoding byte for byte; Err is justified
+   only by a message longer than the limit, and then nothing was written *)
+Definition wants_ok (mm : N) (l : list (N * (cid * want_type))) (trace : list N) : bool :=
+  let cids := map snd l in
+  match trace with
+  | [0; w] => (w =? 0) && (mm <? request_len cids)
+  | 1 :: len :: body =>
+      match pall (let* es := plist p_wl_entry in let* full := pN in let* raw := plist pN in
+                  pret (es, full, raw)) body with
+      | Some (es, full, raw) =>
+          (len <=? mm) && (full =? 0) && wentries_ok l (map fst l) es &&
+          (N.of_nat (length raw) =? len) && nlist_eqb raw (request_bytes cids)
+      | None => false
+      end
+  | _ => false
+  end.
 
 Definition prop_ok (case trace : list N) : bool :=
   match decode_case case, trace with
@@ -627,15 +842,50 @@ Definition prop_ok (case trace : list N) : bool :=
       end
   | Some (CNode ops tab), 4 :: n :: body =>
       match pall (prep (length ops) p_opout) body with
-      | Some outs => (n =? N.of_nat (length ops)) && node_ok tab [false; false; false] ops outs
+      | Some outs => (n =? N.of_nat (length ops)) && node_ok tab [ps_init; ps_init; ps_init] [true; true; true] [false; false; false] ops outs
       | None => false
       end
   | Some (CPres mm l), 5 :: body =>
       match pall (plist p_opbatch) body with
       | Some obs =>
           nlist_eqb (concat (map opb_ids obs))
-                    (map sp_id (filter (fits spres (fun _ => 0) sp_elen 0 mm) l)) &&
+                    (map sp_id (filter (fits spres (fun _ => 0) sp_elen blk_mlen 0 mm) l)) &&
           forallb (pbatch_ok mm l) obs
+      | None => false
+      end
+  | Some (CWant mm l), 6 :: body => wants_ok mm l body
+  | Some (CBlocksMsg l), 7 :: body =>
+      match pall (plist pN) body with
+      | Some raw =>
+          (* the message is the canonical encoding: as long as the sizes say, carrying the blocks *)
+          nlist_eqb raw (match l with [] => [] | _ => blocks_bytes l end) &&
+          match l with
+          | [] => true
+          | _ => N.of_nat (length raw) =? message_len cblock cb_elen blk_mlen l
+          end
+      | None => false
+      end
+  | Some (CMixed ws ps bs), 8 :: body =>
+      match pall (plist (let* tag := pN in let* ids := plist pN in pret (tag, ids))) body with
+      | Some evs =>
+          let of_tag t := map snd (filter (fun e : N * list N => fst e =? t) evs) in
+          (* requests first, then presences, then blocks; nothing else; no empty event *)
+          forallb (fun e : N * list N => (1 <=? fst e) && (fst e <=? 3) &&
+                                         negb (match snd e with [] => true | _ => false end)) evs &&
+          nlist_eqb (map fst evs)
+                    (map (fun _ => 1) (of_tag 1) ++ map (fun _ => 2) (of_tag 2) ++ map (fun _ => 3) (of_tag 3)) &&
+          (* the request (within the limit in this stream) is reported whole, by one event; every
+             presence and block that fits a message is reported once and in order *)
+          (request_len (map snd ws) <=? MM) &&
+          list_eqb nlist_eqb (of_tag 1) (match ws with [] => [] | _ => [map fst ws] end) &&
+          nlist_eqb (concat (of_tag 2))
+                    (map sp_id (filter (fits spres (fun _ => 0) sp_elen blk_mlen 0 MM) ps)) &&
+          nlist_eqb (concat (of_tag 3)) (fit_ids MB MM bs) &&
+          forallb (fun ids => (ids_dsum bs ids <=? MB) &&
+                              (EMPTY_MESSAGE_LEN +
+                               sum (map (fun i => match find_sb bs i with
+                                                  | Some b => sb_elen b | None => 0 end) ids) <=? MM))
+                  (of_tag 3)
       | None => false
       end
   | None, [0] => true
